@@ -154,6 +154,24 @@ func checkParsed(raw []byte) Event {
 		if err != nil {
 			return err
 		}
+		// the same message laid out differently in memory: both signatures are windows (with spare capacity) into one caller-owned array,
+		// every other byte field has spare capacity filled with a canary; the bytes must be the same and the message must stay as it was
+		laid := proto.Clone(m).(*pb.QuoteV4)
+		withSpare(laid)
+		if sd := laid.GetSignedData(); sd != nil && sd.GetCertificationData().GetQeReportCertificationData() != nil {
+			arr := make([]byte, 0, 256)
+			arr = append(arr, sd.Signature...)
+			q := sd.CertificationData.QeReportCertificationData
+			arr = append(arr, q.QeReportSignature...)
+			arr = append(arr, bytes.Repeat([]byte{0x5c}, 64)...)
+			sd.Signature = arr[:len(sd.Signature)]
+			q.QeReportSignature = arr[len(sd.Signature) : len(sd.Signature)+len(q.QeReportSignature)]
+		}
+		before := proto.Clone(laid)
+		back2, err2 := abi.QuoteToAbiBytes(laid)
+		if err2 != nil || !bytes.Equal(back2, back) || !proto.Equal(before, laid) {
+			stable = false
+		}
 		// what was returned belongs to the caller: serialising another quote afterwards (same goroutine) must not change it
 		keep := append([]byte{}, back...)
 		other := proto.Clone(m).(*pb.QuoteV4)
@@ -165,7 +183,7 @@ func checkParsed(raw []byte) Event {
 		if _, err2 := abi.QuoteToAbiBytes(other); err2 != nil {
 			return err2
 		}
-		stable = bytes.Equal(back, keep)
+		stable = stable && bytes.Equal(back, keep)
 		return nil
 	})
 	ev["reserialOk"] = o2.Verdict() == "accept" && bytes.Equal(back, raw) && stable
